@@ -88,17 +88,31 @@ example : (∀ a b : Nat, (· + 42) a = (· + 42) b → a = b) ∧ accepts Renam
   ⟨by intro a b h; simp only at h; omega, by decide⟩
 
 /-!
+## closed since the last refresh of this file
+
+* **"The copy-on-write handling of the destination (`ReindexStates(dst, index, addFinalStates)` into a *given* destination
+  automaton …) is not modelled"** – closed in the extended heap model of C11: `ReindexStates(dst, …)` (and `Union`, which is two
+  of them into a new object) is a sequence of `SetStateFinal` and insertions through the `unique…` helpers into `dst`, and no
+  other object changes (`C11_ext_reindex_into` in `Vata/Properties/C11_Extended.lean`).
+* **The translator classes** the index functors are instances of: `TranslatorStrict` (and the `const` call operator of the
+  weak translators) is a pure lookup – a miss is an exception, never an insertion (`Util_Glue_strict_pure`); `TranslatorWeak`
+  is lookup-or-create, keeps every old translation and stays injective when the functor's answer is fresh
+  (`Util_Glue_weak_injective`, `Util_Glue_weak_eval_order` in `Vata/Properties/Util_Glue.lean`).
+* Totality of the reference deciders the results are compared with: `C14_reference_total` (`Vata/Properties/RefTotal.lean`).
+* The renaming `SanitizeAutsForInclusion` performs is an instance with all consequences proved (`C01_sanitise_model`), and so
+  is the quotient map of `Reduce` as coded (`C05_pipeline`).
+
 ## not yet proved
 
 * "Isomorphic" is rendered by its consequences (same language, same run semantics up to `h`, same counts); an
   explicit isomorphism statement (inverse map on the image with `reindex h⁻¹ (reindex h A) = A` up to set equality)
   is not stated.
-* The copy-on-write handling of the destination (`ReindexStates(dst, index, addFinalStates)` into a *given* destination
-  automaton, re-fetching the cluster per source state) is not modelled; `reindex` produces a fresh automaton.  Sharing
-  is the subject of C11.
+* `reindex` takes a TOTAL map `h : Nat → Nat`; the composition "a translator object that throws on an unknown state, applied
+  by `ReindexStates`" (which states are looked up, in which order, what is left in `dst` when the exception is thrown) is not
+  modelled – only the translator classes on their own (above) and the total-map image.
 * For `TranslateSymbols` with a non-injective symbol map only the inclusion is proved (the converse is false, see
   `RenameEx`); trees that are not of the form `mapSyms g t` are not covered by `C14_translateSymbols_lang` (they are by
-  `C14_translateSymbols_image` together with the definition of `accepts`).
-* Partial maps / translators that throw on unknown states (`TranslatorStrict`) are outside the model (total maps).
+  `C14_translateSymbols_image` together with the definition of `accepts`, and by `translateSymbols_accepts_image` in
+  `Vata/Proofs/Equivariance.lean`: the renumbered automaton accepts only renumbered trees).
 -/
 end Vata.Props
